@@ -426,6 +426,25 @@ def oracle_c12(run, ops, impl):
                 out.append(V("C12:paid-without-weight", {"line": i + 1, "paid": paid}))
             if d["bal"] >= owed_before and o["bal"] < owed_after:
                 out.append(V("C12:module-balance-below-owed", {"line": i + 1, "balance": o["bal"], "owed": owed_after}))
+        elif op.startswith("oracle allocate"):
+            a = op.split()
+            total, periods = int(a[3]), int(a[4])
+            rw_b = [tuple(int(x) for x in it.split("/")) for it in plist(sec(a[5:], "RW"))]
+            bal_b = int(sec(a[5:], "BAL"))
+            if ob.startswith("panic") or ob.startswith("err"):
+                out.append(V("C12:allocation-failed", {"line": i + 1, "op": op[:200], "result": ob[:100]}))
+                continue
+            o = ob.split()
+            rw_a = [tuple(int(x) for x in it.split("/")) for it in plist(sec(o, "RW"))]
+            bal_a = int(sec(o, "BAL"))
+            owed_b = sum(r[1] * r[2] for r in rw_b)
+            owed_a = sum(r[1] * r[2] for r in rw_a)
+            if bal_a - bal_b != total:
+                out.append(V("C12:allocation-moved-wrong-amount", {"line": i + 1, "moved": bal_a - bal_b, "total": total}))
+            if owed_a - owed_b > total:
+                out.append(V("C12:allocation-owes-more-than-funded", {"line": i + 1, "total": total, "periods": periods, "owed_growth": owed_a - owed_b}))
+            if bal_b >= owed_b and bal_a < owed_a:
+                out.append(V("C12:module-balance-below-owed", {"line": i + 1, "balance": bal_a, "owed": owed_a}))
         elif op.startswith("oracle slash"):
             a = op.split()
             sw, vp, minvalid = int(a[2]), int(a[3]), int(a[4])
